@@ -19,6 +19,8 @@ package main
 //        holdmu / freemu  the harness itself takes / releases the vigil's condition mutex; `cease` and `wait` issued in
 //                       between line up on it (`queued`) and get it in that order when it is released (Go hands a
 //                       starving mutex over FIFO) — this reaches the window between a waiter's check and its Lock
+//        destroysave    Destroy() of a swamp instance while a Save (holding its vigil) stands right before its
+//                       `s.mu.RLock()`: reply `mu=<state of s.mu when the drain begins> done|stuck`
 //        closefail      Close() of a swamp instance whose chronicler fails its final Close(); does a
 //                       WaitForGracefulClose caller get its answer?
 //        rpcs           a few real gateway RPCs (one of them panics and is recovered), then the
@@ -297,6 +299,99 @@ func c17CloseFail() string {
 	return "closefail returned"
 }
 
+// c17DestroySave: a Save in flight while the swamp is destroyed.  The writer holds its vigil and is stopped in
+// SaveFunction right before `s.mu.RLock()`; Destroy() runs up to the beginning of its drain; the state of
+// `s.mu` is read there (a destroyer that already holds the write lock can never get its drain: the writer
+// it waits for needs the read lock); then the writer is released and both must finish.
+func c17DestroySave(restore func()) string {
+	dir, err := os.MkdirTemp("", "hvc17-")
+	if err != nil {
+		return "destroysave setup-error"
+	}
+	defer os.RemoveAll(dir)
+	nm := name.New().Sanctuary("c17").Realm("destroysave").Swamp("one")
+	ch := chronicler.NewV2WithName(dir+"/swamp", 2, nm.Get())
+	ch.CreateDirectoryIfNotExists()
+	inst := swamp.New(nm, time.Hour, &swamp.FilesystemSettings{ChroniclerInterface: ch, WriteInterval: time.Hour},
+		func(*swamp.Event) {}, func(*swamp.Info) {}, func(name.Name) {}, metadata.NewNoop())
+	atMu, draining := make(chan struct{}, 1), make(chan struct{}, 1)
+	relW, relD := make(chan struct{}), make(chan struct{})
+	verifhook.SetHandler(func(hook string, args ...any) {
+		switch hook {
+		case "save.beforeMu":
+			if sw, ok := args[0].(swamp.Swamp); ok && sw == inst {
+				select {
+				case atMu <- struct{}{}:
+					<-relW
+				default:
+				}
+			}
+		case "destroy.draining":
+			if n, _ := args[0].(string); n == nm.Get() {
+				select {
+				case draining <- struct{}{}:
+					<-relD
+				default:
+				}
+			}
+		}
+	})
+	defer restore()
+	wDone, dDone := make(chan struct{}), make(chan struct{})
+	go func() {
+		defer close(wDone)
+		inst.BeginVigil()
+		defer inst.CeaseVigil()
+		t := inst.CreateTreasure("k")
+		if t == nil {
+			return
+		}
+		g := t.StartTreasureGuard(true)
+		t.SetContentString(g, "v")
+		_ = t.Save(g)
+		t.ReleaseTreasureGuard(g)
+	}()
+	release := func() {
+		select {
+		case <-relW:
+		default:
+			close(relW)
+		}
+		select {
+		case <-relD:
+		default:
+			close(relD)
+		}
+	}
+	select {
+	case <-atMu:
+	case <-time.After(HxScale(3 * time.Second)):
+		release()
+		return "destroysave timeout no-save"
+	}
+	go func() { defer close(dDone); inst.Destroy() }()
+	select {
+	case <-draining:
+	case <-time.After(HxScale(3 * time.Second)):
+		release()
+		return "destroysave timeout no-drain"
+	}
+	mu := "free"
+	if !swamp.VerifSwampMuFree(inst) {
+		mu = "held"
+	}
+	release()
+	res := "done"
+	for _, c := range []chan struct{}{wDone, dDone} {
+		select {
+		case <-c:
+		case <-time.After(HxScale(1500 * time.Millisecond)):
+			res = "stuck" // the watchdog OBSERVES non-termination; the goroutines are abandoned
+		}
+	}
+	return fmt.Sprintf("destroysave mu=%s %s", mu, res)
+}
+
 func init() {
 	Register("C17", Domain{Gen: genC17, Run: runC17})
 }
@@ -311,7 +406,7 @@ func genC17(rng *rand.Rand, tier string, w *bufio.Writer) {
 	fmt.Fprintln(w, "case 0\nbegin\nwait\ncease\nbcast\nwgo 1\nexpect 1\nbcast\nexpect 1")
 	fmt.Fprintln(w, "case 1\nbegin\nbegin\nwait\ncease\nbcast\nwgo 1\nexpect 1\ncease\nbcast\nexpect 1")
 	fmt.Fprintln(w, "case 2\nbegin\nwait\nwgo 1\nexpect 1\ncease\nexpect 1\nbcast\nexpect 1\nwait\nexpect 2")
-	fmt.Fprintln(w, "case 3\nrpcs\nclosefail")
+	fmt.Fprintln(w, "case 3\nrpcs\nclosefail\ndestroysave")
 	// the last operation ends while a waiter is on its way to the mutex: with check and sleep decided under the mutex it returns
 	fmt.Fprintln(w, "case 4\nbegin\nholdmu\ncease\nwait\nfreemu\nbcast\nwgo 1\nexpect 1")
 	fmt.Fprintln(w, "case 5\nbegin\nbegin\nholdmu\nwait\ncease\nfreemu\nwgo 1\nbcast\ncease\nbcast\nexpect 1")
@@ -483,6 +578,8 @@ func runC17(in *bufio.Scanner, out *bufio.Writer) {
 			w.mu.Unlock()
 			w.muQueue = nil
 			fmt.Fprintf(out, "freemu %s %s\n", strings.Join(res, " "), w.state())
+		case "destroysave":
+			fmt.Fprintln(out, c17DestroySave(func() { verifhook.SetHandler(w.handler) }))
 		case "closefail":
 			fmt.Fprintln(out, c17CloseFail())
 		case "begin":
